@@ -1,5 +1,6 @@
 import Proofs.TeamSame
 import Proofs.EarliestFit
+import Proofs.TeamLimits
 /-!
 C07 / C08 for teams without limits: a team takes a slot whenever all its members are working there and none of them is booked —
 in the final ledger, between the bound and the end, every slot in which all members are working carries the task on all of them,
@@ -36,15 +37,35 @@ theorem unavailable_has (e : Env) (σ σ' : St) (m : Nat) (i : Int) (hs : Solid 
   · intro hu
     exact hav (hs.room m i hu)
 
-/-- a team none of whose members (all unlimited, the task without limits) got the slot: some member was not working there, or
-    carried an entry -/
+/-- a member that is working in the slot and not available carries an entry there, or one of its resource limits refuses -/
+theorem unavailable_reason (e : Env) (σ σ' : St) (m : Nat) (i : Int) (hs : Solid e σ) (hl : σ'.led = σ.led) (hmk : σ'.marks = σ.marks)
+    (hi : 0 ≤ i) (hleaf : (e.resD m).leaf = true) (hon : e.onShift m i = true) (hnl : e.leaveMark m i = false)
+    (ha : available e σ' m i = false) : Has m i σ ∨ ∃ lid ∈ resLimitIds e m, limitOk e σ' lid i none = false := by
+  by_cases hlim : (resLimitIds e m).all (fun lid => limitOk e σ' lid i none) = true
+  · left
+    have hnorm : e.norm i = i := by unfold Env.norm; simp [Int.not_lt.mpr hi]
+    unfold available at ha
+    simp only [hleaf, hon, hlim, Bool.and_true, Bool.true_and, hnorm, hnl, Bool.or_false, hl, hmk] at ha
+    unfold Has
+    by_cases hav : availSecs e.G (σ.led.get m i) > 0
+    · simp only [hav, decide_true, Bool.true_and, Bool.not_eq_false', Bool.and_eq_true, decide_eq_true_eq] at ha
+      exact hs.marked m i ha.1
+    · intro hu
+      exact hav (hs.room m i hu)
+  · right
+    have hlim' : (resLimitIds e m).all (fun lid => limitOk e σ' lid i none) = false := by simpa using hlim
+    obtain ⟨lid, hlid, hno⟩ := List.all_eq_false.mp hlim'
+    exact ⟨lid, hlid, by simpa using hno⟩
+
+/-- a team none of whose members got the slot: some member was not working there, or carried an entry, or a limit of a
+    member or of the task has no room for the whole team -/
 theorem bookResources_team_nobody_reason (e : Env) (wf : WF e) (σ : St) (t : Nat) (w : Walk) (sel : List Nat)
     (hinv : Inv e σ) (hs : Solid e σ) (hin : WalkIn e w) (ha : (e.taskD t).hasAlloc = true)
     (hsel : selectedOf e σ t w = sel) (hteam : isTeam e t sel = true) (hnd : sel.Nodup)
     (hclean : ∀ r ∈ sel, usageOf (σ.led.get r w.cur).usage t = none)
-    (hleaf : ∀ m ∈ sel, (e.resD m).leaf = true) (hrl : ∀ m ∈ sel, resLimitIds e m = []) (htl : taskLimitIds e t = [])
+    (hleaf : ∀ m ∈ sel, (e.resD m).leaf = true)
     (hnone : ∀ r ∈ sel, usageOf ((bookResources e σ t w).1.led.get r w.cur).usage t = none) :
-    ∃ m ∈ sel, e.onShift m w.cur = false ∨ e.leaveMark m w.cur = true ∨ Has m w.cur σ := by
+    (∃ m ∈ sel, e.onShift m w.cur = false ∨ e.leaveMark m w.cur = true ∨ Has m w.cur σ) ∨ TeamTight e σ t sel w.cur := by
   have hne : sel ≠ [] := by
     intro h; rw [h] at hteam; simp [isTeam] at hteam
   by_cases hg : teamGateOk e t w.cur σ sel = true
@@ -94,31 +115,46 @@ theorem bookResources_team_nobody_reason (e : Env) (wf : WF e) (σ : St) (t : Na
     rw [hall x hx] at h1
     exact absurd h1 (by simp)
   · have hg' : teamGateOk e t w.cur σ sel = false := by simpa using hg
-    obtain ⟨m, hm, σ', hl, hmk, hf⟩ := teamGate_fails_member e t w.cur σ sel hg'
-    have htl' : taskLimitsOk e σ' t w.cur m = true := by unfold taskLimitsOk; rw [htl]; rfl
-    rw [htl', Bool.and_true] at hf
-    refine ⟨m, hm, ?_⟩
-    by_cases hon : e.onShift m w.cur = true
-    · by_cases hnl : e.leaveMark m w.cur = false
-      · exact Or.inr (Or.inr (unavailable_has e σ σ' m w.cur hs hl hmk hin.cur_nonneg (hleaf m hm) hon hnl (hrl m hm) hf))
-      · exact Or.inr (Or.inl (by simpa using hnl))
-    · exact Or.inl (by simpa using hon)
+    obtain ⟨m, hm, σ', hl, hmk, hcnt, hf⟩ := teamGate_fails_member_cnt e wf t w.cur σ sel hg'
+    have tight_of : ∀ lid ro, limitOk e σ' lid w.cur ro = false → Tight e lid w.cur ro ((sel.length : Int) - 1) σ := by
+      intro lid ro hno
+      rw [limitOk_false_iff] at hno
+      refine ⟨hno.1, hno.2.1, ?_⟩
+      have := (hcnt lid (e.period (e.limitD lid) w.cur)).2
+      omega
+    by_cases hav : available e σ' m w.cur = true
+    · -- the task's limits refuse the member
+      right
+      rw [hav, Bool.true_and] at hf
+      unfold taskLimitsOk at hf
+      obtain ⟨lid, hlid, hno⟩ := List.all_eq_false.mp hf
+      exact ⟨m, hm, Or.inr ⟨lid, hlid, tight_of lid (some m) (by simpa using hno)⟩⟩
+    · have hav' : available e σ' m w.cur = false := by simpa using hav
+      by_cases hon : e.onShift m w.cur = true
+      · by_cases hnl : e.leaveMark m w.cur = false
+        · rcases unavailable_reason e σ σ' m w.cur hs hl hmk hin.cur_nonneg (hleaf m hm) hon hnl hav' with h1 | ⟨lid, hlid, hno⟩
+          · exact Or.inl ⟨m, hm, Or.inr (Or.inr h1)⟩
+          · exact Or.inr ⟨m, hm, Or.inl ⟨lid, hlid, tight_of lid none hno⟩⟩
+        · exact Or.inl ⟨m, hm, Or.inr (Or.inl (by simpa using hnl))⟩
+      · exact Or.inl ⟨m, hm, Or.inl (by simpa using hon)⟩
 
 /-- all members are working in the slot -/
 def AllWorking (e : Env) (sel : List Nat) (i : Int) : Prop := ∀ m ∈ sel, e.onShift m i = true ∧ e.leaveMark m i = false
 
-/-- **along the forward walk of an unlimited team**: a visited slot in which all members are working ends up carrying the task on
-    every member, or some member carries there a task that was in the ledger before the walk began -/
+/-- **along the forward walk of a team**: a visited slot in which all members are working ends up carrying the task on every
+    member, or some member carries there a task that was in the ledger before the walk began, or a limit of a member or of the
+    task has no room for the whole team -/
 theorem walkLoop_team_fit (e : Env) (wf : WF e) (t : Nat) (sel placed : List Nat) (σ0 : St) (fuel : Nat) (σ : St) (w : Walk)
     (vis : List Int) (hinv : Inv e σ) (hs : Solid e σ) (hlf : (e.taskD t).leaf = true) (hw : WalkOk e t w) (hin : WalkIn e w)
     (ha : (e.taskD t).hasAlloc = true) (hm : (e.taskD t).milestone = false)
     (hsel : selectedOf e σ t w = sel) (hteam : isTeam e t sel = true) (hnd : sel.Nodup) (hpos : 0 < (e.taskD t).effort)
     (hts : TS σ t sel true w vis)
-    (hleaf : ∀ m ∈ sel, (e.resD m).leaf = true) (hrl : ∀ m ∈ sel, resLimitIds e m = []) (htl : taskLimitIds e t = [])
+    (hleaf : ∀ m ∈ sel, (e.resD m).leaf = true)
     (hown : Owned placed σ0) (hnp : t ∉ placed) (hahead : ∀ r i, w.cur ≤ i → σ.led.get r i = σ0.led.get r i) :
     ∀ p ∈ walkVisits e t fuel σ w, AllWorking e sel p.2.cur →
       (∀ m ∈ sel, usageOf ((walkLoop e t true fuel σ w).1.led.get m p.2.cur).usage t ≠ none) ∨
-      ∃ m ∈ sel, ∃ t' ∈ placed, usageOf ((walkLoop e t true fuel σ w).1.led.get m p.2.cur).usage t' ≠ none := by
+      (∃ m ∈ sel, ∃ t' ∈ placed, usageOf ((walkLoop e t true fuel σ w).1.led.get m p.2.cur).usage t' ≠ none) ∨
+      TeamTight e (walkLoop e t true fuel σ w).1 t sel p.2.cur := by
   induction fuel generalizing σ w vis with
   | zero => intro p hp; simp [walkVisits] at hp
   | succ f ih =>
@@ -138,19 +174,25 @@ theorem walkLoop_team_fit (e : Env) (wf : WF e) (t : Nat) (sel placed : List Nat
     -- what the slot of this visit holds right after `scheduleSlot`
     have hslot : AllWorking e sel w.cur →
         (∀ m ∈ sel, usageOf ((scheduleSlot e σ t w).1.led.get m w.cur).usage t ≠ none) ∨
-        ∃ m ∈ sel, ∃ t' ∈ placed, t ≠ t' ∧ usageOf (σ.led.get m w.cur).usage t' ≠ none := by
+        (∃ m ∈ sel, ∃ t' ∈ placed, t ≠ t' ∧ usageOf (σ.led.get m w.cur).usage t' ≠ none) ∨
+        TeamTight e (scheduleSlot e σ t w).1 t sel w.cur := by
       intro hall
       rcases hcase with hnone | ⟨a, ha0, hent, hlast⟩
       · right
-        obtain ⟨m, hm', hr⟩ := bookResources_team_nobody_reason e wf σ t w sel hinv hs hin ha hsel hteam hnd hclean hleaf hrl htl hnone
-        rcases hr with hr | hr | hr
-        · rw [(hall m hm').1] at hr; exact Bool.noConfusion hr
-        · rw [(hall m hm').2] at hr; exact Bool.noConfusion hr
-        · unfold Has at hr
-          obtain ⟨x, hx⟩ := List.exists_mem_of_ne_nil _ hr
-          have hx0 : x ∈ (σ0.led.get m w.cur).usage := by rw [← hahead m w.cur (Int.le_refl _)]; exact hx
-          have hxp := hown m w.cur x hx0
-          exact ⟨m, hm', x.1, hxp, fun heq => hnp (heq ▸ hxp), usageOf_of_mem hx⟩
+        rcases bookResources_team_nobody_reason e wf σ t w sel hinv hs hin ha hsel hteam hnd hclean hleaf hnone with
+          ⟨m, hm', hr⟩ | htight
+        · left
+          rcases hr with hr | hr | hr
+          · rw [(hall m hm').1] at hr; exact Bool.noConfusion hr
+          · rw [(hall m hm').2] at hr; exact Bool.noConfusion hr
+          · unfold Has at hr
+            obtain ⟨x, hx⟩ := List.exists_mem_of_ne_nil _ hr
+            have hx0 : x ∈ (σ0.led.get m w.cur).usage := by rw [← hahead m w.cur (Int.le_refl _)]; exact hx
+            have hxp := hown m w.cur x hx0
+            exact ⟨m, hm', x.1, hxp, fun heq => hnp (heq ▸ hxp), usageOf_of_mem hx⟩
+        · right
+          exact teamTight_closed_step (fun lid ro hr =>
+            closed_scheduleSlot (tight_closed e lid w.cur ro _) wf σ t w hinv hlf trivial hw hin hr) htight
       · left
         intro m hm'
         unfold scheduleSlot
@@ -180,9 +222,10 @@ theorem walkLoop_team_fit (e : Env) (wf : WF e) (t : Nat) (sel placed : List Nat
         intro p hp hall
         have hp' : p = (σ, w) := by simpa using hp
         subst hp'
-        rcases hslot hall with h1 | ⟨m, hm', t', ht', hne, h1⟩
+        rcases hslot hall with h1 | ⟨m, hm', t', ht', hne, h1⟩ | h1
         · exact Or.inl h1
-        · exact Or.inr ⟨m, hm', t', ht', by rw [scheduleSlot_same e σ t w t' hne m w.cur]; exact h1⟩
+        · exact Or.inr (Or.inl ⟨m, hm', t', ht', by rw [scheduleSlot_same e σ t w t' hne m w.cur]; exact h1⟩)
+        · exact Or.inr (Or.inr h1)
       · simp only [hout, Bool.false_eq_true, if_false]
         have hcur2 : (advance true w (scheduleSlot e σ t w).2.1).cur = w.cur + 1 := by
           rw [advance_cur, scheduleSlot_cur]; simp
@@ -190,15 +233,29 @@ theorem walkLoop_team_fit (e : Env) (wf : WF e) (t : Nat) (sel placed : List Nat
         rcases List.mem_cons.mp hp with hp | hp
         · subst hp
           simp only [] at hall ⊢
-          rcases hslot hall with h1 | ⟨m, hm', t', ht', hne, h1⟩
+          have hin2 : WalkIn e (advance true w (scheduleSlot e σ t w).2.1) := by
+            refine ⟨?_, ?_, ?_⟩
+            · simp only [Bool.or_eq_true, decide_eq_true_eq, not_or, Int.not_lt] at hout
+              exact hout.1
+            · show (0 : Rat) ≤ (e.G : Rat) - 1 / 1000000
+              have : (1 : Int) ≤ e.G := wf.G_pos
+              have : (1 : Rat) ≤ (e.G : Rat) := by exact_mod_cast this
+              grind
+            · simp only [Bool.or_eq_true, decide_eq_true_eq, not_or, Int.not_lt] at hout
+              exact hout.2
+          rcases hslot hall with h1 | ⟨m, hm', t', ht', hne, h1⟩ | h1
           · left
             intro m hm'
             rw [walkLoop_before e t f _ _ m w.cur (by rw [hcur2]; omega)]
             exact h1 m hm'
-          · right
+          · right; left
             refine ⟨m, hm', t', ht', ?_⟩
             rw [walkLoop_before e t f _ _ m w.cur (by rw [hcur2]; omega), scheduleSlot_same e σ t w t' hne m w.cur]
             exact h1
+          · right; right
+            exact teamTight_closed_step (fun lid ro hr =>
+              closed_walkLoop (tight_closed e lid w.cur ro _) wf t true f _ _ hsi.1 hlf trivial
+                (walkOk_advance e t wf _ _ _ hw1) hin2 hr) h1
         · have hin2 : WalkIn e (advance true w (scheduleSlot e σ t w).2.1) := by
             refine ⟨?_, ?_, ?_⟩
             · simp only [Bool.or_eq_true, decide_eq_true_eq, not_or, Int.not_lt] at hout
@@ -219,25 +276,24 @@ theorem walkLoop_team_fit (e : Env) (wf : WF e) (t : Nat) (sel placed : List Nat
       intro p hp hall
       have hp' : p = (σ, w) := by simpa using hp
       subst hp'
-      rcases hslot hall with h1 | ⟨m, hm', t', ht', hne, h1⟩
+      rcases hslot hall with h1 | ⟨m, hm', t', ht', hne, h1⟩ | h1
       · exact Or.inl h1
-      · exact Or.inr ⟨m, hm', t', ht', by rw [scheduleSlot_same e σ t w t' hne m w.cur]; exact h1⟩
+      · exact Or.inr (Or.inl ⟨m, hm', t', ht', by rw [scheduleSlot_same e σ t w t' hne m w.cur]; exact h1⟩)
+      · exact Or.inr (Or.inr h1)
 
-/-- a forward team task: several pairwise different unlimited leaf resources, no limits on the task, no start of its own -/
+/-- a forward team task: several pairwise different leaf resources, no start of its own (limits allowed) -/
 structure TeamU (e : Env) (t : Nat) (sel : List Nat) : Prop where
   el : TeamAny e t sel
   nostart : (e.taskD t).startProvided = false
   rleaf : ∀ m ∈ sel, (e.resD m).leaf = true
-  rl : ∀ m ∈ sel, resLimitIds e m = []
-  tl : taskLimitIds e t = []
 
 /-- how a team fits: between the bound slot and any slot it is booked in, a slot in which all members are working carries the
-    task on every member, or some member carries one of `pre` -/
+    task on every member, or some member carries one of `pre`, or a limit has no room for the whole team -/
 def FitAtT (e : Env) (σ : St) (t : Nat) (sel pre : List Nat) : Prop :=
   ∀ L m0, m0 ∈ sel → usageOf (σ.led.get m0 L).usage t ≠ none →
     ∀ i, boundSlot e σ t ≤ i → i ≤ L → AllWorking e sel i →
       (∀ m ∈ sel, usageOf (σ.led.get m i).usage t ≠ none) ∨
-      ∃ m ∈ sel, ∃ t' ∈ pre, usageOf (σ.led.get m i).usage t' ≠ none
+      (∃ m ∈ sel, ∃ t' ∈ pre, usageOf (σ.led.get m i).usage t' ≠ none) ∨ TeamTight e σ t sel i
 
 /-- **one forward team task** -/
 theorem scheduleTask_team_fit (e : Env) (wf : WF e) (σ : St) (t : Nat) (sel placed : List Nat)
@@ -247,7 +303,8 @@ theorem scheduleTask_team_fit (e : Env) (wf : WF e) (σ : St) (t : Nat) (sel pla
     ∀ L m0, m0 ∈ sel → usageOf ((scheduleTask e σ t).1.led.get m0 L).usage t ≠ none →
       ∀ i, (initCursor e σ t).1 ≤ i → i ≤ L → AllWorking e sel i →
         (∀ m ∈ sel, usageOf ((scheduleTask e σ t).1.led.get m i).usage t ≠ none) ∨
-        ∃ m ∈ sel, ∃ t' ∈ placed, usageOf ((scheduleTask e σ t).1.led.get m i).usage t' ≠ none := by
+        (∃ m ∈ sel, ∃ t' ∈ placed, usageOf ((scheduleTask e σ t).1.led.get m i).usage t' ≠ none) ∨
+        TeamTight e (scheduleTask e σ t).1 t sel i := by
   have hpc : preStartCursor e σ t (initCursor e σ t).1 = (initCursor e σ t).1 := by
     unfold preStartCursor; simp [hel.el.alloc]
   have hpt : preStartT e σ t (initCursor e σ t).1 = σ.tst t := by
@@ -303,7 +360,7 @@ theorem scheduleTask_team_fit (e : Env) (wf : WF e) (σ : St) (t : Nat) (sel pla
         { cur := (initCursor e σ t).1, offset := (initCursor e σ t).2 })[(i - (initCursor e σ t).1).toNat]).2.cur = i := by
       rw [hjc]; omega
     have := walkLoop_team_fit e wf t sel placed (σ.setT t (σ.tst t)) _ _ _ [] h0 hs0 hel.el.leaf hw hin hel.el.alloc hel.el.nomile
-      hsel0 hel.el.isTeam hel.el.nodup hel.el.effort hts hel.rleaf hel.rl hel.tl hown hnp (fun _ _ _ => rfl)
+      hsel0 hel.el.isTeam hel.el.nodup hel.el.effort hts hel.rleaf hown hnp (fun _ _ _ => rfl)
       _ (List.getElem_mem hj) (by rw [hcur]; exact hall)
     rw [hcur] at this
     split <;> exact this
@@ -352,8 +409,12 @@ theorem fitInvT_step (e : Env) (wf : WF e) (σ : St) (tasks placed : List Nat) (
       rw [hstart]
       cases (e.taskD t).start <;> rfl
     rw [updateContainers_led] at hL ⊢
-    exact scheduleTask_team_fit e wf σ t sel placed h.base.inv h.base.solid hel hfw hnd0 hclean0 h.base.owned hnp0
-      L m0 hm0 hL i (by rw [hic]; exact hbi) hiL hall
+    rcases scheduleTask_team_fit e wf σ t sel placed h.base.inv h.base.solid hel hfw hnd0 hclean0 h.base.owned hnp0
+      L m0 hm0 hL i (by rw [hic]; exact hbi) hiL hall with h1 | h1 | h1
+    · exact Or.inl h1
+    · exact Or.inr (Or.inl h1)
+    · exact Or.inr (Or.inr (teamTight_closed_step (fun lid ro hr =>
+        closed_updateContainers (tight_closed e lid i ro _) _ hr) h1))
   · have htsame := hsame t heq (Or.inl hel.el.leaf)
     rw [htsame] at hd hfw
     obtain ⟨post, pre, hsplit, hfit⟩ := h.okT t sel hel hd hfw
@@ -367,12 +428,12 @@ theorem fitInvT_step (e : Env) (wf : WF e) (σ : St) (tasks placed : List Nat) (
     rw [boundSlot_congr e σ _ t (fun dp hdp => by rw [htgt dp hdp]; exact ⟨rfl, rfl⟩)] at hbi
     rw [updateContainers_led, scheduleTask_same e σ t0 t (Ne.symm heq) m0 L] at hL
     rw [updateContainers_led]
-    rcases hfit L m0 hm0 hL i hbi hiL hall with h1 | ⟨m, hm, t', ht', h1⟩
+    rcases hfit L m0 hm0 hL i hbi hiL hall with h1 | ⟨m, hm, t', ht', h1⟩ | h1
     · left
       intro m hm
       rw [scheduleTask_same e σ t0 t (Ne.symm heq) m i]
       exact h1 m hm
-    · right
+    · right; left
       refine ⟨m, hm, t', ht', ?_⟩
       have hne : t0 ≠ t' := by
         intro h5
@@ -381,6 +442,10 @@ theorem fitInvT_step (e : Env) (wf : WF e) (σ : St) (tasks placed : List Nat) (
         exact List.mem_append_right _ (List.mem_cons_of_mem _ ht')
       rw [scheduleTask_same e σ t0 t' hne m i]
       exact h1
+    · right; right
+      exact teamTight_closed_step (fun lid ro hr =>
+        closed_updateContainers (tight_closed e lid i ro _) _
+          (closed_scheduleTask (tight_closed e lid i ro _) wf σ t0 h.base.inv hlf0 trivial hr)) h1
 
 theorem pickLoop_doneFitT (e : Env) (wf : WF e) (fuel : Nat) (tasks failed placed : List Nat) (σ : St)
     (h : FitInvT e σ tasks placed) :
@@ -398,10 +463,11 @@ theorem pickLoop_doneFitT (e : Env) (wf : WF e) (fuel : Nat) (tasks failed place
         · exact ⟨placed, tasks, h.base.placement, h.okT⟩
         · exact ⟨placed, tasks, h.base.placement, h.okT⟩
 
-/-- **C07 / C08 for unlimited teams, end to end**, with the same placement order as `runScenario_placement`: every completed
-    forward team task (several pairwise different unlimited leaf resources, no limits on the task, no start of its own) occurs
+/-- **C07 / C08 for teams, end to end**, with the same placement order as `runScenario_placement`: every completed
+    forward team task (several pairwise different leaf resources, no start of its own; limits allowed) occurs
     in the order, and between the slot of its dependency bound and any slot in which it is booked, every slot in which ALL its
-    members are on shift and not on leave carries the task on every member, or some member carries there a task placed before. -/
+    members are on shift and not on leave carries the task on every member, or some member carries there a task placed before,
+    or some limit of a member or of the task has no room left there for the whole team (`TeamTight`). -/
 theorem runScenario_placementT (e : Env) (wf : WF e) (tr : Tree e) :
     ∃ order rest, Placement e (runScenario e) order rest ∧ DoneFitT e (runScenario e) order := by
   have hprep : Inv e (prepare e (initState e)) := prepare_inv e _ (inv_init e wf)
@@ -478,6 +544,10 @@ theorem runScenario_placementT (e : Env) (wf : WF e) (tr : Tree e) :
     rw [boundSlot_congr e (scheduleScenario e (prepare e (initState e))) _ t
       (fun dp _ => ⟨(hsd dp.target).1, (hsd dp.target).2.1⟩)] at hbi
     rw [finishScenario_led] at hL ⊢
-    exact hfit L m0 hm0 hL i hbi hiL hall
+    rcases hfit L m0 hm0 hL i hbi hiL hall with h1 | h1 | h1
+    · exact Or.inl h1
+    · exact Or.inr (Or.inl h1)
+    · exact Or.inr (Or.inr (teamTight_closed_step (fun lid ro hr =>
+        closed_finishScenario (tight_closed e lid i ro _) _ hr) h1))
 
 end SP
